@@ -262,6 +262,7 @@ CONSTANTS
   EmitEdges = @EMIT@
   TestDefaultOn = %(td)s
   Lite = %(lite)s
+  EmitOneIn = %(onein)d
 VIEW View
 INVARIANTS TypeOK SelValid HeapExact RegSound
 PROPERTIES Isolation PrecIndependent SelSticky SelMoves EvalPure FatalIntact FatalOnlyIfMisuse NoUseBeforeInit ReinitFresh SetThenGet
@@ -270,6 +271,6 @@ CHECK_DEADLOCK FALSE
 '''
 
 
-def mc_cfg(prec=('d',), handles=('h1', 'h2'), testdefault=False, lite=False):
-    return MC_CFG % dict(td='TRUE' if testdefault else 'FALSE', lite='TRUE' if lite else 'FALSE', prec='{' + ', '.join('"%s"' % p for p in prec) + '}',
+def mc_cfg(prec=('d',), handles=('h1', 'h2'), testdefault=False, lite=False, onein=1):
+    return MC_CFG % dict(td='TRUE' if testdefault else 'FALSE', lite='TRUE' if lite else 'FALSE', onein=onein, prec='{' + ', '.join('"%s"' % p for p in prec) + '}',
                          handles='{' + ', '.join('"%s"' % h for h in handles) + '}')
